@@ -47,4 +47,26 @@ MUTANTS = [
       "C03.PROV6", "static drift disrupts more than it reserved"),
     M("M03h", "C03", P + "state/statenodepool.go", "		n.MarkNodeClaimDeleting(npName, nodeClaim.Name)\n	} else {", "		n.MarkNodeClaimDeleting(npName, nodeClaim.Name)\n		n.nodePoolNameToNodeClaimState[npName].Active.Delete(nodeClaim.Name)\n	} else {",
       ["C03.LOCK1", "C03.SYM2"], "unlocked, unguarded map access added to UpdateNodeClaim"),
+
+    # ---- C16
+    M("M61", "C16", P + "nodeclaim/expiration/controller.go", "expirationTime := nodeClaim.CreationTimestamp.Add(*nodeClaim.Spec.ExpireAfter.Duration)",
+      "expirationTime := nodeClaim.CreationTimestamp.Add(*nodeClaim.Spec.ExpireAfter.Duration / 2)", "C16.DOM1", "expiry computed from half the duration"),
+    M("M61b", "C16", P + "nodeclaim/expiration/controller.go", "	if nodeClaim.Spec.ExpireAfter.Duration == nil {\n		return reconcile.Result{}, nil\n	}\n	expirationTime := nodeClaim.CreationTimestamp.Add(*nodeClaim.Spec.ExpireAfter.Duration)",
+      "	var expireAfter time.Duration\n	if nodeClaim.Spec.ExpireAfter.Duration != nil {\n		expireAfter = *nodeClaim.Spec.ExpireAfter.Duration\n	}\n	expirationTime := nodeClaim.CreationTimestamp.Add(expireAfter)", "C16.DOM1", "disabled expiry (Never) treated as zero duration", ),
+    M("M62", "C16", P + "nodeclaim/garbagecollection/controller.go", "		return n.StatusConditions().Get(v1.ConditionTypeRegistered).IsTrue() &&\n			n.DeletionTimestamp.IsZero() &&",
+      "		return n.DeletionTimestamp.IsZero() &&", "C16.MPT1", "GC no longer restricted to registered NodeClaims"),
+    M("M62b", "C16", P + "nodeclaim/garbagecollection/controller.go", "			errs[i] = err\n			return\n", "			errs[i] = err\n", "C16.ERR1", "F5 re-introduced: falls through to Delete after a failed lookup"),
+    M("M62c", "C16", P + "nodeclaim/garbagecollection/controller.go", "if node != nil && nodeutils.GetCondition(node, corev1.NodeReady).Status == corev1.ConditionTrue {",
+      "if node != nil && nodeutils.GetCondition(node, corev1.NodeReady).Status == corev1.ConditionTrue && node.DeletionTimestamp.IsZero() {", "C16.DOM2", "Ready node that is terminating is garbage collected"),
+    M("M62d", "C16", P + "nodeclaim/garbagecollection/controller.go", "		return nc.Status.ProviderID\n", "		return nc.Name\n", "C16.PROV2", "provider set keyed by name instead of provider id"),
+    M("M63", "C16", P + "node/health/controller.go", "		nodePoolHealthy, err := c.isNodePoolHealthy(ctx, nodePoolName)\n		if err != nil {\n			return reconcile.Result{}, client.IgnoreNotFound(err)\n		}\n		if !nodePoolHealthy {",
+      "		nodePoolHealthy, err := c.isNodePoolHealthy(ctx, nodePoolName)\n		if err != nil {\n			log.FromContext(ctx).Error(err, \"checking nodepool health\")\n		}\n		if err == nil && !nodePoolHealthy {", ["C16.ERR2", "C16.DOM4"], "health lookup error ignored, repair proceeds"),
+    M("M63b", "C16", P + "node/health/controller.go", "len(nodeList.Items), true))", "len(nodeList.Items), false))", ["C16.PROV1", "C16.MPT2"], "threshold rounds down"),
+    M("M63c", "C16", P + "node/health/controller.go", "	return unhealthyNodeCount <= threshold, nil", "	return unhealthyNodeCount <= threshold+1, nil", "C16.MPT2", "off by one in the circuit breaker"),
+    M("M63d", "C16", P + "nodeclaim/lifecycle/liveness.go", "registrationTimeout - l.clock.Since(registered.LastTransitionTime.Time)", "registrationTimeout - l.clock.Since(nodeClaim.CreationTimestamp.Time)",
+      "C16.DOM3b", "registration timeout measured from creation instead of the condition transition"),
+    M("M63e", "C16", P + "node/health/controller.go", "	if c.clock.Now().Before(terminationTime) {\n		return reconcile.Result{RequeueAfter: terminationTime.Sub(c.clock.Now())}, nil\n	}\n", "	_ = terminationTime\n",
+      "C16.DOM4", "toleration window not awaited"),
+    M("M63f", "C16", P + "nodeclaim/consistency/controller.go", "func (c *Controller) Reconcile(ctx context.Context, nodeClaim *v1.NodeClaim) (reconcile.Result, error) {\n",
+      "func (c *Controller) Reconcile(ctx context.Context, nodeClaim *v1.NodeClaim) (reconcile.Result, error) {\n	if nodeClaim.Labels[\"x\"] == \"gone\" {\n		_ = c.kubeClient.Delete(ctx, nodeClaim)\n	}\n", "C16.WMC1", "a new, unclassified reaper"),
 ]
